@@ -207,4 +207,23 @@ pub fn generate(thorough: bool, seed: u64, em: &mut Emitter) {
             }
         }
     }
+    // mapping keys that are scalars but not strings (numbers, booleans, null): the JSON claims name the member by the
+    // key's text, and a tag below such a key is a tagged node like any other
+    let keys: [(&str, &str); 8] = [("1", "1"), ("7", "7"), ("true", "true"), ("false", "false"), ("null", "null"), ("1.5", "1.5"), ("0x1F", "31"), ("-3", "-3")];
+    for (ktext, kname) in keys.iter() {
+        let docs: Vec<(String, Value, Vec<String>)> = vec![
+            (format!("sub: x\n{}:\n  !sd a: b\n  c: d\n", ktext), json!({"sub": "x", *kname: {"a": "b", "c": "d"}}), vec![format!("/{}/a", kname)]),
+            (format!("{}:\n  inner:\n    !sd a: b\n    c: 1\nz: 2\n", ktext), json!({*kname: {"inner": {"a": "b", "c": 1}}, "z": 2}), vec![format!("/{}/inner/a", kname)]),
+            (format!("{}:\n  - !sd US\n  - DE\nz: 2\n", ktext), json!({*kname: ["US", "DE"], "z": 2}), vec![format!("/{}/0", kname)]),
+            (format!("outer:\n  {}:\n    !sd a: b\n    !sd c: d\n", ktext), json!({"outer": {*kname: {"a": "b", "c": "d"}}}), vec![format!("/outer/{}/a", kname), format!("/outer/{}/c", kname)]),
+        ];
+        for (doc, claims, paths) in docs {
+            em.case("yaml", json!({"doc": doc, "claims": claims, "paths": paths, "expect_ok": true, "nontrivial": true, "tag": "tag_below_non_string_key"}));
+        }
+    }
+    // two keys of one mapping that are the same string once the tag is removed: the document without its tags is not a
+    // valid document, so the tagged one is refused as well
+    for doc in ["!sd a: 1\na: 2\n", "a: 2\n!sd a: 1\n", "x:\n  !sd a: {b: 1}\n  a: 2\n", "!sd a: {!sd b: 1}\na: 2\n", "l:\n  - !sd k: 1\n    k: 2\n"] {
+        em.case("yaml", json!({"doc": doc, "claims": Value::Null, "paths": [], "expect_ok": "reject", "nontrivial": true, "tag": "keys_collide_after_tag_removal"}));
+    }
 }
